@@ -44,7 +44,7 @@ def _guards(ctx, fi):
 
 
 @rule('SA-GUARD.layout')
-@props('C17')
+@props('C17', 'C14', 'C06')
 def guard_layout(ctx):
     obs = []
     pc = ctx.cls(PC)
@@ -93,7 +93,7 @@ def guard_layout(ctx):
                           '' if ok else '%s marks the layout stale but has a normal path on which self.%s stays False: '
                           'after such an edit extents have moved, modify_file_in_place is accepted and writes the new content and the file entries at sectors that '
                           'belong to other data in the opened file' % (f.qual, attr)))
-        if nmark < 2:
+        if nmark < 1:
             raise AnalysisError('anchor-vanished: methods that assign self._needs_reshuffle = True (%d)' % nmark)
         # (2b) the recomputation pass itself moves extents (on an image mastered by another tool: all of them).  Every call
         # of it runs because changes are pending (`if self._needs_reshuffle:` - those changes raised the guard), or in a
@@ -108,7 +108,7 @@ def guard_layout(ctx):
                     continue
                 st = ctx.enclosing_stmt(f, cnode)
                 from .. import expand as ex
-                pending = any(pol and 'self._needs_reshuffle' in [norm(x) for x in ast.walk(test)] for test0, pol0, _a in ex.conditions(ctx, f, st, True)
+                pending = any(pol and norm(test) == 'self._needs_reshuffle' for test0, pol0, _a in ex.conditions(ctx, f, st, True)
                               for test, pol in ex.conjuncts(test0, pol0))
                 ok = pending
                 if not ok:
